@@ -34,9 +34,9 @@ class C19(CheckDef):
     fields = ('t', 'k', 'o', 'i', 'v', 'w')
     programs = {
         'quick': [('%s/%s;%s/%s;%s' % (PUB1, ANY, ANY, ANY, ANY), {}, 1500, 'random'), ('%s;%s/%s;%s/%s' % (PUB3, PUB5, ANY3, ANY3, ANY3), {}, 1200, 'random'),
-                  ('31/41;41;41/41;11', {}, 800, 'random'), ('22;2/12;12;12/22;12;12/50;54', {}, 800, 'pct'), ('35/45;45/33/43;43', {}, 600, 'random')],
+                  ('31/41;41;41/41;11', {}, 800, 'random'), ('22;2/12;12;12/22;12;12/50;54', {}, 800, 'pct'), ('35/45;45/33/43;43', {}, 600, 'random'), ('31/41;41', {}, 2000, 'pb2'), ('62/11;11', {}, 2000, 'pb2')],
         'thorough': [('%s/%s;%s/%s;%s' % (PUB1, ANY, ANY, ANY, ANY), {}, 25000, 'random'), ('%s;%s/%s;%s/%s' % (PUB3, PUB5, ANY3, ANY3, ANY3), {}, 20000, 'random'),
-                     ('31/41;41;41/41;11', {}, 15000, 'random'), ('22;2/12;12;12/22;12;12/50;54', {}, 15000, 'pct'), ('35/45;45/33/43;43', {}, 10000, 'random'),
+                     ('31/41;41;41/41;11', {}, 15000, 'random'), ('22;2/12;12;12/22;12;12/50;54', {}, 15000, 'pct'), ('35/45;45/33/43;43', {}, 10000, 'random'), ('31/41;41/11', {}, 200000, 'pb2'), ('62;2/11;12/22', {}, 200000, 'pb2'),
                      ('%s;%s;%s/%s;%s;%s/%s;%s;%s' % ((PUB1, ANY, ANY) + (ANY,) * 6), {}, 25000, 'random')],
     }
     assumptions = ['bounded thread/operation counts; SC interleavings for the value clauses',
